@@ -52,7 +52,25 @@ func runQuery(doc Map, sql string, opts ...QueryOption) ([]any, bool) {
 	if err != nil {
 		return nil, false
 	}
+	// a prepared query can be executed again: same rows (queries whose calls
+	// have effects of their own - variables, counted or asynchronous calls -
+	// are executed once)
+	if !hasAny(sql, "SETVAR", "ASYNC", "SPIN", "ONCE", "vfault", "vfail", "vpanic", "AWAIT", "GROUP BY", " JOIN ") { // (grouping and joins: map-order decisions would be taken twice)
+		again, err := q.Exec()
+		verif.Assert(err == nil && verif.Eq(again, got), "same-result-when-executed-again")
+	}
 	return got, true
+}
+
+func hasAny(s string, words ...string) bool {
+	for _, w := range words {
+		for i := 0; i+len(w) <= len(s); i++ {
+			if s[i:i+len(w)] == w {
+				return true
+			}
+		}
+	}
+	return false
 }
 
 // sameRows asserts that got is exactly the sequence want (row contents; a
